@@ -39,6 +39,12 @@ def _sid(gen, vt, victim_is_server):
         closed = [s for s in live if s.state == 'closed']
         if closed:
             return rng.choice(closed).sid
+    if k == 11 and vt.hi_mine > 1:
+        # a never-used id of the peer's parity that lies below the victim's own watermark (the two id spaces are
+        # independent: comparing it with the wrong watermark is a classic slip)
+        c = vt.hi_mine - 1 - 2 * rng.randrange(0, 2)
+        if c > vt.hi_peer:
+            return c
     return rng.choice([5, 7, 9, 4, 6, 101, 102])
 
 
@@ -196,6 +202,8 @@ def draw(gen):
         kind = None
         if st is None:
             kind = 'request' if victim_is_server and rng.random() < 0.8 else None
+            if not victim_is_server and rng.random() < 0.5:
+                kind = rng.choice(['request', 'response'])      # well-formed blocks on ids the client never heard of
         elif st.mine and st.recv in ('none', 'info'):
             kind = rng.choice(['response', 'response', 'info', None])
         elif st.recv == 'final':
